@@ -124,11 +124,13 @@ fn gen_with(tier: &str, seed: u64, heavy_scripts: bool, emit: &mut dyn FnMut(Str
     if heavy_scripts {
         // one invocation queueing hundreds of requests (more than any fixed-size queue a table could need): inserts then
         // removes, many requests for one PID, alternating insert / remove
-        for v in 0..(if big { 24 } else { 6 }) {
+        for v in 0..(if big { 24 } else { 8 }) {
             let pool = pid_pool(&mut rng, 3);
-            let n = if v % 6 == 5 { *rng.pick(&[8191usize, 8192, 8193, 9000]) } else { *rng.pick(&[255usize, 256, 257, 300, 513]) };
+            let n = if v % 4 == 3 { *rng.pick(&[8191usize, 8192, 8193, 9000]) } else { *rng.pick(&[255usize, 256, 257, 300, 513]) };
             let mut acts: Vec<String> = vec![];
-            match (if n > 7000 { 1 + v % 2 } else { v % 3 }) {
+            match (if n > 7000 { 3 } else { v % 4 }) {
+                // the FIRST request is the one that matters: an insert followed by n requests about another PID
+                3 => { acts.push(format!("i{}.P", pool[2])); for k in 0..n { if k % 3 == 0 { acts.push(format!("i{}.R", pool[1])); } else { acts.push(format!("r{}", pool[1])); } } }
                 0 => { for k in 0..n { acts.push(format!("i{}.R", 0x400 + k)); } for k in 0..n { if k % 2 == 0 { acts.push(format!("r{}", 0x400 + k)); } } }
                 1 => { for k in 0..n { acts.push(format!("i{}.{}", pool[1], if k % 2 == 0 { "R" } else { "P" })); } }
                 _ => { for k in 0..n { if k % 2 == 0 { acts.push(format!("i{}.R", pool[1])); } else { acts.push(format!("r{}", pool[1])); } } acts.push(format!("i{}.P", pool[2])); }
